@@ -42,6 +42,13 @@ func VH_Pod(a []int) {
 		set.Spec.Template.Spec.Volumes = append(set.Spec.Template.Spec.Volumes, v1.Volume{Name: vClaimNames[0], VolumeSource: v1.VolumeSource{EmptyDir: &v1.EmptyDirVolumeSource{}}})
 		sym.Cover("template volume clashes with a claim template")
 	}
+	// the set name may be a DNS subdomain with dots (names are otherwise fixed constants)
+	sn := vSetName
+	if len(a) > 2 && a[2] == 1 && sym.Pick("setname", 2) == 1 {
+		sn = "db.prod"
+		set.Name = sn
+		sym.Cover("set name with a dot")
+	}
 	// a template may carry identity fields of its own; they must not survive in the pods
 	if len(a) > 2 && a[2] == 1 && sym.Pick("template.identity", 2) == 1 {
 		set.Spec.Template.Spec.Hostname = "zk"
@@ -60,7 +67,7 @@ func VH_Pod(a []int) {
 	pod := newVersionedStatefulSetPod(currentSet, updateSet, cur.Name, upd.Name, ord)
 
 	// ---- identity
-	name := fmt.Sprintf("%s-%d", vSetName, ord)
+	name := fmt.Sprintf("%s-%d", sn, ord)
 	sym.Assert(pod.Name == name, "C06", "pod name is <set>-<ordinal>")
 	sym.Assert(pod.Namespace == vNS, "C06", "pod lives in the set's namespace")
 	sym.Assert(pod.Spec.Hostname == name, "C06", "hostname is the pod name")
@@ -71,9 +78,9 @@ func VH_Pod(a []int) {
 	wantVariant := sym.IteStr(int32(ord) < part, "A", "B")
 	sym.Assert(pod.Annotations[vVariantK] == wantVariant, "C06", "template of the revision it was built from")
 	ref := metav1.GetControllerOf(pod)
-	sym.Assert(ref != nil && ref.UID == vSetUID && ref.Kind == controllerKind.Kind && ref.Name == vSetName, "C06", "controlling owner reference to the set by UID")
+	sym.Assert(ref != nil && ref.UID == vSetUID && ref.Kind == controllerKind.Kind && ref.Name == sn, "C06", "controlling owner reference to the set by UID")
 	for i := 0; i < nt; i++ {
-		claim := fmt.Sprintf("%s-%s-%d", vClaimNames[i], vSetName, ord)
+		claim := fmt.Sprintf("%s-%s-%d", vClaimNames[i], sn, ord)
 		found := 0
 		for _, v := range pod.Spec.Volumes {
 			if v.Name == vClaimNames[i] {
@@ -96,7 +103,7 @@ func VH_Pod(a []int) {
 	inLister := make([]bool, nt)
 	inAPI := make([]bool, nt)
 	for i := 0; i < nt; i++ {
-		c := v1.PersistentVolumeClaim{ObjectMeta: metav1.ObjectMeta{Name: fmt.Sprintf("%s-%s-%d", vClaimNames[i], vSetName, ord), Namespace: vNS}}
+		c := v1.PersistentVolumeClaim{ObjectMeta: metav1.ObjectMeta{Name: fmt.Sprintf("%s-%s-%d", vClaimNames[i], sn, ord), Namespace: vNS}}
 		switch sym.Pick("claim.state", 3) {
 		case 1:
 			w.apiPVCs = append(w.apiPVCs, c.DeepCopy())
@@ -113,7 +120,7 @@ func VH_Pod(a []int) {
 	// claims are visited in map order, which Go leaves unspecified: the trace
 	// lists the claim operations per claim, in template order
 	for i := 0; i < nt; i++ {
-		claim := fmt.Sprintf("%s-%s-%d", vClaimNames[i], vSetName, ord)
+		claim := fmt.Sprintf("%s-%s-%d", vClaimNames[i], sn, ord)
 		for _, op := range w.ops {
 			if op.name == claim {
 				sym.Note(op.verb, op.name, "failed", op.failed)
@@ -135,7 +142,7 @@ func VH_Pod(a []int) {
 	}
 	claimTrouble := false
 	for i := 0; i < nt; i++ {
-		claim := fmt.Sprintf("%s-%s-%d", vClaimNames[i], vSetName, ord)
+		claim := fmt.Sprintf("%s-%s-%d", vClaimNames[i], sn, ord)
 		ready := inLister[i]
 		for j, op := range w.ops {
 			if op.verb == "pvc.get" && op.name == claim && op.failed {
